@@ -157,6 +157,7 @@ class Model:
         self.asm = {}  # K -> [bytearray, last_use]
         self.ren = {}  # K -> [bytes, last_use]
         self.asm_unknown = set()
+        self.asm_b2 = {}
         self.small = {}  # K -> time of the latest block-0 rendering that fitted one block
 
     def presence(self, table, K, now):
@@ -336,6 +337,9 @@ def judge(h, box, res, rep, case, T, EPS):
             if num == 0:
                 model.asm_unknown.discard(K)
                 model.asm[K] = [bytearray(P), now]
+                # the assembled request is built on the block-0 message: its Block2 option (if any) stays in force
+                # unless the final block brings its own
+                model.asm_b2[K] = st["b2"]
                 if more and len(P) != size:
                     # mis-sized block 0: not a "continuation"; statement leaves it open
                     if code not in (rc.c(2, 31), rc.c(4, 0)):
@@ -417,6 +421,8 @@ def judge(h, box, res, rep, case, T, EPS):
             handler_body = st["payload"]
         # ---------------- Block2 stage ----------------
         b2 = st["b2"]
+        if b2 is None and st["b1"] is not None and st["b1"][0] > 0:
+            b2 = model.asm_b2.get(K)
         if b2 is None or b2[0] == 0:
             rep.monitor("handler_body")
             if len(tr["handler"]) != 1:
@@ -458,6 +464,12 @@ def judge(h, box, res, rep, case, T, EPS):
                 # the latest block-0 rendering fitted one block and was not kept: beyond-the-end (4.00) or no-rendering (4.08)
                 if code in (rc.c(4, 0), rc.c(4, 8)):
                     rep.count("later_block_on_single_block_rendering")
+                    # keep the model's view of an older stored rendering in step with what the answer reveals:
+                    # 4.00 (beyond the end) is only given when an entry was found (and thereby refreshed)
+                    if code == rc.c(4, 0) and K in model.ren:
+                        model.ren[K][1] = now
+                    elif code == rc.c(4, 8):
+                        model.ren.pop(K, None)
                     continue
                 if pres == "no":
                     rep.violation("block2/later-block-without-rendering-wrong-code", "a later block was requested although the latest rendering fitted one block; answered %s" % rc.code_str(code), wit(i), case)
